@@ -25,6 +25,12 @@ Theorem C08_union_flags_refuted : ~ C08_nested_full.
 Proof. exact union_flags_refuted. Qed.
 Print Assumptions C08_union_flags_refuted.
 
+(* known finding C08/subclass-instance-flags: a field of type A holding an instance of a subclass B(A)
+   that enabled a keyword flag: the call names the flags of the declared class A *)
+Theorem C08_subclass_flags_refuted : ~ C08_nested_full.
+Proof. exact subclass_flags_refuted. Qed.
+Print Assumptions C08_subclass_flags_refuted.
+
 (* a directly nested class receives exactly the flags enabled on both sides ... *)
 Theorem C08_forwarded_exactly :
   forall (ct: list cls) (outer: flags) (cid: nat),
@@ -115,9 +121,9 @@ Definition ex_ct : list cls :=
   [ {| c_mixin := true; c_cfgd := Some {| n_on := T; n_od := U; n_ba := U |}; c_cfg := ns_unset; c_sort := false; c_flags := fl_on;
        c_fields := [({| p_name := "i"; p_alias := None; p_ty := TyPlain; p_trivial := false; p_default := DNo; p_omit := false |}, [1]);
                     ({| p_name := "j"; p_alias := None; p_ty := TyPlain; p_trivial := false; p_default := DNo; p_omit := false |}, [2]);
-                    (fld "x", [])] |};
-    {| c_mixin := true; c_cfgd := None; c_cfg := ns_unset; c_sort := false; c_flags := fl_on; c_fields := [(fld "a", [])] |};
-    {| c_mixin := false; c_cfgd := None; c_cfg := ns_unset; c_sort := false; c_flags := fl_none; c_fields := [(fld "b", [])] |} ]%nat.
+                    (fld "x", [])]; c_parent := None |};
+    {| c_mixin := true; c_cfgd := None; c_cfg := ns_unset; c_sort := false; c_flags := fl_on; c_fields := [(fld "a", [])]; c_parent := None |};
+    {| c_mixin := false; c_cfgd := None; c_cfg := ns_unset; c_sort := false; c_flags := fl_none; c_fields := [(fld "b", [])]; c_parent := None |} ]%nat.
 Definition ex_inst : node := NObj 0 [NObj 1 [NLeaf PNone PNone]; NObj 2 [NLeaf PNone PNone]; NLeaf PNone PNone].
 
 Example C08_nested_nonvacuous :
@@ -130,9 +136,9 @@ Definition exc_ct : list cls :=
   [ {| c_mixin := true; c_cfgd := None; c_cfg := ns_unset; c_sort := false; c_flags := fl_on;
        c_fields := [({| p_name := "i"; p_alias := None; p_ty := TyPlain; p_trivial := false; p_default := DNo; p_omit := false |}, [1]);
                     ({| p_name := "j"; p_alias := None; p_ty := TyPlain; p_trivial := false; p_default := DNo; p_omit := false |}, [2]);
-                    (fld "x", [])] |};
-    {| c_mixin := true; c_cfgd := Some {| n_on := F; n_od := U; n_ba := U |}; c_cfg := ns_unset; c_sort := false; c_flags := fl_on; c_fields := [(fld "a", [])] |};
-    {| c_mixin := false; c_cfgd := None; c_cfg := ns_unset; c_sort := false; c_flags := fl_none; c_fields := [(fld "b", [])] |} ]%nat.
+                    (fld "x", [])]; c_parent := None |};
+    {| c_mixin := true; c_cfgd := Some {| n_on := F; n_od := U; n_ba := U |}; c_cfg := ns_unset; c_sort := false; c_flags := fl_on; c_fields := [(fld "a", [])]; c_parent := None |};
+    {| c_mixin := false; c_cfgd := None; c_cfg := ns_unset; c_sort := false; c_flags := fl_none; c_fields := [(fld "b", [])]; c_parent := None |} ]%nat.
 Example C08_codec_nonvacuous :
   ok_h exc_ct false ex_inst [0%nat] root_flags no_kw (Some {| n_on := T; n_od := U; n_ba := U |}) = true /\
   to_dict_codec exc_ct false ex_inst 0 (Some {| n_on := T; n_od := U; n_ba := U |})
